@@ -754,6 +754,9 @@ def rule_logical_file_stateless(ctx, prop='C04'):
             continue
         for x in f.own_nodes():
             if isinstance(x, ast.Attribute) and isinstance(x.ctx, (ast.Store, ast.Del)) and isinstance(x.value, ast.Name) and x.value.id == 'self':
+                par_ = getattr(x, '_parent', None)
+                if isinstance(par_, ast.AugAssign) and isinstance(par_.value, ast.Constant) and isinstance(par_.value.value, (int, float)):
+                    continue        # a statistics counter
                 wr.append(f'{ctx.loc(f, x)} {f.qual}: self.{x.attr}')
             if isinstance(x, ast.Call) and isinstance(x.func, ast.Attribute) and x.func.attr in ('setdefault', 'append', 'update', 'add', '__setitem__') \
                     and isinstance(x.func.value, ast.Attribute) and isinstance(x.func.value.value, ast.Name) and x.func.value.value.id == 'self':
